@@ -441,6 +441,8 @@ bool ctx_is_current(const m_ctx_t *c) {
 }
 
 m_ctx_t *m_ctx(void) {
+    /* The key may not exist yet: no context was ever registered in this process */
+    pthread_once(&key_once, make_key);
     m_ctx_t *c = pthread_getspecific(key);
     if (c && c->curr_mod) {
         M_RET_ASSERT(!(c->curr_mod->flags & M_MOD_DENY_CTX), NULL);
